@@ -311,6 +311,25 @@ def part_nesting(ctx: Ctx) -> Result:
         want = (["leaf", "leaf", "leaf_raises", "mid_catches", "leaf", "top"], ["leaf"])
         if got != want:
             res.violate(Violation(ID, "missing", "nested-tracing-contexts", {"part": "n", "order": [0, 1], "mod": 0, "call": -1, "k": k}, f"nested trace_calls: outer logged {got[0]}, inner {got[1]}; expected {want}"))
+    # two tracing sessions with a reload of the module in between: the second session must attribute calls to the
+    # functions that exist then (nothing learnt in the first session may leak into the second)
+    for k in (0,):
+        c1, c2 = Collector(), Collector()
+        with trace_calls(c1, k, lambda code: code.co_filename in files):
+            mods[0].leaf(1)
+            mods[0].Prop(1).value
+        importlib.reload(mods[0])
+        with trace_calls(c2, k, lambda code: code.co_filename in files):
+            mods[0].leaf(1)
+            mods[0].Prop(1).value
+        res.states += 1
+        res.transitions += 1
+        res.evaluations += 1
+        want_funcs = [mods[0].leaf, mods[0].Prop.__init__, mods[0].Prop.value.fget]
+        got_funcs = [t.func for t in c2.traces]
+        if len(got_funcs) != 3 or any(g is not w for g, w in zip(got_funcs, want_funcs)):
+            res.violate(Violation(ID, "spurious-or-misattributed", "state-carried-between-sessions", {"part": "n", "order": [0, 1], "mod": 0, "call": -2, "k": k}, f"second tracing session after importlib.reload: traces attributed to {[getattr(g, '__qualname__', g) for g in got_funcs]} objects that are {'not ' if any(g is not w for g, w in zip(got_funcs, want_funcs)) else ''}the reloaded functions"))
+        res.oblige("n:two-sessions-with-reload", True)
     res.oblige("n:twin-code-objects-equal", mods[0].leaf.__code__ == mods[1].leaf.__code__ and mods[0].leaf.__code__ is not mods[1].leaf.__code__)
     for nm in names:
         del sys.modules[nm]
@@ -526,6 +545,7 @@ def run(ctx: Ctx) -> Result:
     res.merge(part_protocols(ctx))
     res.obligations.setdefault("b:two-frames-live-simultaneously", False)
     res.obligations.setdefault("n:twin-code-objects-equal", False)
+    res.obligations.setdefault("n:two-sessions-with-reload", False)
     return res
 
 
